@@ -371,17 +371,23 @@ class Finding:
         return "%s: `%s`: impl `%s` but model `%s`" % (self.case.component, self.op, self.impl, self.model)
 
 
-def judge(case, impl_lines, model_pairs):
-    """First monitor violation, else first divergence, else None."""
+def judge(case, impl_lines, model_pairs, limit=25):
+    """All monitor violations of the case (so that one that matches a known finding cannot mask a
+    different one later in the same case; capped), followed by the first divergence if any."""
+    out = []
     div = None
     for k, (op, io, (mo, v)) in enumerate(zip(case.ops, impl_lines, model_pairs)):
         if v.startswith("VIOL"):
-            return Finding("monitor", case, k, op, io, mo, v)
-        if io.startswith("PANIC") or io.startswith("CRASH"):
-            return Finding("monitor", case, k, op, io, mo, "VIOL implementation " + io[:200])
+            if len(out) < limit:
+                out.append(Finding("monitor", case, k, op, io, mo, v))
+        elif io.startswith("PANIC") or io.startswith("CRASH"):
+            if len(out) < limit:
+                out.append(Finding("monitor", case, k, op, io, mo, "VIOL implementation " + io[:200]))
         if div is None and mo != "*" and mo != io:
             div = Finding("diverge", case, k, op, io, mo, v)
-    return div
+    if div is not None:
+        out.append(div)
+    return out
 
 
 def evaluate(impl, exe, cases):
@@ -397,9 +403,7 @@ def evaluate(impl, exe, cases):
         mo = run_model(exe, comp, cs, io)
         for i, c, a, b in zip(idxs, cs, io, mo):
             impl_all[i] = a
-            f = judge(c, a, b)
-            if f:
-                findings.append(f)
+            findings.extend(judge(c, a, b))
     return findings, impl_all
 
 
@@ -514,8 +518,11 @@ def replay(pid, path):
     mo = run_model(exe, case.component, [case], [io])[0]
     for op, a, (m, v) in zip(case.ops, io, mo):
         print("%-50s impl=%s | model=%s | %s" % (op, a, m, v))
-    f = judge(case, io, mo)
-    if f:
+    fs = judge(case, io, mo)
+    known = load_known()
+    fs = [f for f in fs if not (f.kind == "monitor" and match_known(pid, f, known))]
+    if fs:
+        f = fs[0]
         print("VIOLATION property=%s replay=%s%s" % (pid, path, "" if f.kind == "monitor" else " no-failing-input-found"))
         return 1
     print("replay: property holds on this case")
